@@ -474,6 +474,109 @@ class ReorgDriver(IndexDriver):
                                   audit=op.get('audit', True)))
 
 
+class UndoDriver(ReorgDriver):
+    """C15: the undo-information window."""
+
+    def undo_heights(self):
+        import struct
+        d = self.w.store.dbs.get('utxo', {})
+        return sorted(struct.unpack('>I', k[1:])[0] for k in d.irange(b'U', b'V', inclusive=(True, False))
+                      if len(k) == 5)
+
+    def op_undo_check(self, op):
+        """Caught up at height H: an undo row exists for every height in [max(1, H-L+1), H]."""
+        w = self.w
+        if not w.caught_up():
+            return
+        H = w.daemon.height
+        L = w.k['reorg_limit']
+        have = set(self.undo_heights())
+        need = [h for h in range(max(1, H - L + 1), H + 1) if h not in have]
+        self.probe('undo.window_checked')
+        self.mark('undo', H, L)
+        if need:
+            self.violate('C15', 'undo.missing', f'caught up at height {H} with reorg limit {L}: no '
+                         f'undo information for heights {need[:8]} (have {sorted(have)[-12:]})')
+
+    def op_open_check(self, op):
+        """Right after the databases were opened at stored height h: nothing below h-L+1."""
+        w = self.w
+        if w.server is not None:
+            return      # only a fresh start is judged: rows legitimately accumulate while running
+        w.start()
+        r = w.run(lambda: w.server is not None and w.server.bp is not None
+                  and w.server.bp.state is not None, 120.0)
+        if r != 'pred':
+            return
+        h = w.server.db.state.height
+        L = w.k['reorg_limit']
+        low = [x for x in self.undo_heights() if x < h - L + 1]
+        self.probe('undo.open_checked')
+        if low:
+            self.violate('C15', 'undo.not_pruned', f'opened at height {h} with reorg limit {L}: undo '
+                         f'rows for heights {low[:8]} below the window were not removed')
+
+    def op_snapshot(self, op):
+        w = self.w
+        self.op_stop(op)
+        self.snap = (w.fs.snapshot(), w.store.snapshot(), w.daemon.tip, self.hmax)
+
+    def op_restore(self, op):
+        w = self.w
+        if w.server is not None:
+            w.crash()
+        fs, st, tip, hmax = self.snap
+        w.fs.restore(fs)
+        w.store.restore(st)
+        w.daemon.mempool = {}
+        w.daemon.set_tip(tip)
+        self.hmax = hmax
+        self.pending_bg = max(0, self.pending_bg)
+
+    def op_fork_exact(self, op):
+        """A fork of depth L+delta right now (the server is caught up and, for delta=+1, freshly
+        restarted).  depth <= L must complete; depth L+1 after a restart must be refused and leave a
+        clean index of the stored height."""
+        w = self.w
+        L = w.k['reorg_limit']
+        depth = L + op['delta']
+        H = w.daemon.height
+        if depth < 1 or H < 2 * depth or not w.caught_up():
+            self.probe('fork_exact.skipped')
+            return
+        chain = w.daemon.chain()
+        base = chain[H - depth]
+        rng = self.rng_for(op)
+        orphaned = [t for b in chain[H - depth + 1:] for t in b.txs if not t.is_coinbase]
+        tip = base
+        for i in range(depth + 1):
+            include = [t for t in orphaned if rng.random() < 0.5]
+            tip = w.gen.make_block(tip, rng, 2, include=include)
+        w.daemon.set_tip(tip)
+        self.probe('fork_exact.delta%+d' % op['delta'])
+        self.mark('fork_exact', op['delta'])
+        if op['delta'] <= 0:
+            self.hmax = max(self.hmax, tip.height)
+            self.op_sync(dict(op='sync'))
+            return
+        # depth L+1: refusal expected
+        stored_before = self.stored_height()
+        r = w.run(lambda: w.caught_up(), 300.0)
+        if r == 'pred':
+            self.violate('C15', 'undo.window_too_wide', f'a fork of depth {depth} = limit+1 right '
+                         'after a restart was carried out: undo information older than the window '
+                         'had not been removed')
+            return
+        if r == 'exit':
+            ex = w.server_exits[-1]
+            self.probe('fork_exact.refused.' + (type(ex[1]).__name__ if ex[1] else ex[0]))
+        else:
+            w.crash()
+            self.probe('fork_exact.refused.no_exit')
+        self.op_reopen_audit(dict(op='reopen_audit', props=('C15',)))
+        self.res.notes.append(f'refused at stored height {self.stored_height()} (before {stored_before})')
+
+
 class ReorgFamily(Family):
     name = 'reorg'
     driver = ReorgDriver
@@ -605,7 +708,63 @@ class CrashBackFamily(ReorgFamily):
         return dict(family='crashback', knobs=k, plan=plan)
 
 
+class UndoFamily(ReorgFamily):
+    name = 'undo'
+    driver = UndoDriver
+
+    def gen(self, rng, tier, prop):
+        k = swarm_knobs(rng)
+        L = rng.choice([1, 2, 3, 5, 8, 1000])
+        k['reorg_limit'] = L
+        Le = min(L, 8)
+        n0 = rng.choice([2 * (Le + 1) + 2, 2 * (Le + 1) + 6, 30])
+        k['activation'] = rng.randint(1, n0)
+        if k['chunk_size'] < 64:
+            k['chunk_size'] = 64
+        traj = rng.choice(['far_ahead', 'growing', 'caught'])
+        first = n0 if traj == 'far_ahead' else max(2, n0 // 2) if traj == 'growing' else 2
+        plan = [dict(op='mine', n=first, ntx=ntx_list(rng, first), seed=rng.getrandbits(32), keep=True),
+                dict(op='start', keep=True),
+                dict(op='poker', period=(0.05, 2.0), p_full=0.5)]
+        left = n0 - first
+        while left > 0:
+            n = min(left, rng.randint(1, 4))
+            left -= n
+            if traj == 'caught':
+                plan.append(dict(op='mine', n=n, ntx=ntx_list(rng, n), seed=rng.getrandbits(32)))
+                if rng.random() < 0.7:
+                    plan.append(dict(op='sync'))
+            else:
+                plan.append(dict(op='mine', n=n, ntx=ntx_list(rng, n), at=round(rng.uniform(0, 4), 3),
+                                 seed=rng.getrandbits(32)))
+            r = rng.random()
+            if r < 0.15:
+                plan.append(dict(op='stop'))
+                plan.append(dict(op='open_check'))
+            elif r < 0.3:
+                plan.append(dict(op='crash_when', cond='anyop', skip=rng.randint(0, 60), window=5.0,
+                                 until_caught_up=False))
+                plan.append(dict(op='open_check'))
+        plan.append(dict(op='sync', keep=True))
+        plan.append(dict(op='undo_check'))
+        if rng.random() < 0.5:
+            # natural forks within the window right away (rows of every origin)
+            plan.append(dict(op='fork', depth=rng.choice([1, Le]), extra=1, ntx=[2, 3], remine=0.5,
+                             seed=rng.getrandbits(32)))
+            plan.append(dict(op='sync'))
+            plan.append(dict(op='undo_check'))
+        plan.append(dict(op='snapshot', keep=True))
+        for delta in rng.sample([-1, 0, 1], rng.randint(1, 3)):
+            plan.append(dict(op='restore'))
+            plan.append(dict(op='open_check'))
+            plan.append(dict(op='sync'))
+            plan.append(dict(op='undo_check'))
+            plan.append(dict(op='fork_exact', delta=delta, seed=rng.getrandbits(32)))
+        return dict(family='undo', knobs=k, plan=plan)
+
+
 FAMILY = ReorgFamily()
+UNDO = UndoFamily()
 SHUTDOWN = ShutdownFamily()
 CRASHFWD = CrashFwdFamily()
 CRASHBACK = CrashBackFamily()
